@@ -51,6 +51,7 @@ GLOBAL_RULES = [
     ("mono.cast_unwrap", r"\bnum_traits::cast\(([^()]*)\)\.unwrap\(\)", r"(\1 as usize)"),
     # rule 4: documented refusals are allowed divergence
     # rule 4: panics are obligations
+    ("panic.assert_stmt", r"^(\s*)(?:debug_)?assert!\((.*)\);[ \t]*$", r"\1{ let assert_cond_ = \2; assert(assert_cond_); }"),
     ("panic.assert", r"\b(?:debug_)?assert!\(", r"assert("),
     ("panic.unreachable", r"\bunreachable!\(\)", r"vpanic()"),
     ("panic.panic_stmt", r"\bpanic!\((\"[^\"]*\")\);", r"vpanic::<()>();"),
@@ -322,6 +323,34 @@ def apply_rules(seg, rules, log, where):
         if name.startswith("builtin:"):
             seg = BUILTINS[rx](seg, log, where)
             continue
+        if name.startswith("after:"):
+            # insert `repl` after the brace-delimited statement that starts at each match
+            k, pos, seen = 0, 0, 0
+            only = int(name.split(":")[2])
+            while True:
+                masked = rustlex.mask(seg)
+                m = re.compile(rx, re.M).search(masked, pos)
+                if not m:
+                    break
+                seen += 1
+                if only and seen != only:
+                    pos = m.end()
+                    continue
+                ob = m.end() - 1 if masked[m.end() - 1] in "{(" else masked.find("{", m.start())
+                if ob < 0:
+                    raise LostAnchor("rule %s in %s: no `{` after `%s`" % (name, where, rx))
+                cb = rustlex.match_brace(masked, ob)
+                endp = cb + 1
+                if masked[endp:endp + 1] == ";":
+                    endp += 1
+                seg = seg[:endp] + "\n" + repl + seg[endp:]
+                pos = endp + len(repl)
+                k += 1
+            if need is not None and k != need:
+                raise LostAnchor("rule %s in %s matched %d time(s), needs %d: `%s`" % (name, where, k, need, rx))
+            if k:
+                log.append({"rule": name, "matches": k, "where": where})
+            continue
         try:
             seg, k = re.subn(rx, repl, seg, flags=re.M)
         except re.error as e:
@@ -428,6 +457,17 @@ def generate(tpl_path, width="u32", vacuity=False):
                     if mb.group(1) not in BUILTINS:
                         raise LostAnchor("unknown builtin rule %s" % mb.group(1))
                     rules.append(("builtin:" + mb.group(1), mb.group(1), None, None))
+                    i += 1
+                    continue
+                ma = re.match(r"//@after\s+(?:n=(\d+|\*)\s+)?(?:nth=(\d+)\s+)?`(.*)`\s+=>>\s*$", l2)
+                if ma:
+                    rep = []
+                    i += 1
+                    while tpl_lines[i][0].strip() != "//@end":
+                        rep.append(tpl_lines[i][0])
+                        i += 1
+                    need = None if ma.group(1) in (None, "*") else int(ma.group(1))
+                    rules.append(("after:%d:%s" % (len(rules) + 1, ma.group(2) or "0"), ma.group(3), "\n".join(rep), need))
                     i += 1
                     continue
                 m = re.match(r"//@rule\s+(?:n=(\d+|\*)\s+)?`(.*)`\s+=>(>)?\s*(?:`(.*)`)?\s*$", l2)
